@@ -18,7 +18,7 @@ from ..solver_model import solver_function
 from .C10 import parser_line_loop
 from .C16 import Summaries, check_accessor, discover_accessors
 
-TECHNIQUE = ("static analysis: sibling cross-check of the two consumers of the shared parser (injected-name closure), same-list / index-alignment agreement of the code emitters, symbolic per-path evaluation of the column sequence, alias analysis of the flattened table renderer, three-valued NaN walk of the template's stop test")
+TECHNIQUE = ("static analysis: sibling cross-check of the two consumers of the shared parser (injected-name closure), agreement of the code emitters by term evaluation (variable vector and equation list as concatenated maps over the parser lists, iteration canonicalised to index ranges), must-pass-through of the list builders before the file writer, symbolic per-path evaluation of the column sequence, alias analysis of the flattened table renderer, three-valued NaN walk of the template's stop test")
 EXPLANATION = (
     'Extracts the identifiers the shared parser injects by itself and checks that each consumer binds them (the in-process '
     'solver defines k as an exogenous series; the generator must put it into its template scope). Checks that all emitters '
